@@ -157,7 +157,8 @@ class StdoutProxy:
         self.errors = "strict"
 
     def write(self, s):
-        self._s.ask("stdout-write", "<stdout>")
+        if s:  # click probes the stream with empty writes; a closed pipe only shows on real output
+            self._s.ask("stdout-write", "<stdout>")
         return self._f.write(s)
 
     def flush(self):
